@@ -676,6 +676,25 @@ def reentry_cases(seed, n):
     return cases
 
 
+# ------------------------------------------------------------------ slice.indices, exhaustively on small lists (C14, C03)
+def slice_exhaustive_cases():
+    """the transcription of `slice.indices` (Sq.sliceIndices, the subject of SqProps.C14.slice_* and SqProps.C03.slice_*) against CPython
+    on every list length 0..6, every bound pair in -8..8 (and absent), every step in -8..8: the forms the grammar spells,
+    `c[a:b]`, `c[a:]`, `c[:b]`, `c[:]`, `c[::k]`; elements are distinct so that order and identity of the selection show"""
+    cases = []
+    R = list(range(-8, 9))
+    for n in range(0, 7):
+        ent = f'(S:{hx("c")} (L 1' + ''.join(f' I:{10 + i}' for i in range(n)) + '))'
+        for a in R:
+            src = '[' + ', '.join(f'c[{a}:{b}]' for b in R) + f', c[{a}:], c[:{a}], c[{a}::], c[:{a}:]]'
+            cases.append((eval_line(src, ent, budget=20000), f'slices n={n} a={a}'))
+        src = '[' + ', '.join(f'c[::{k}]' for k in R if k != 0) + ', c[:], c[1.5:-0.5], c[-2.5:], c[::2.9], c[::-1.5]]'
+        cases.append((eval_line(src, ent, budget=20000), f'steps n={n}'))
+        cases.append((eval_line('c[::0]', ent), f'zero step n={n}'))
+        cases.append((eval_line('try_apply(w => c[::0], 0)', ent), f'zero step caught n={n}'))
+    return cases
+
+
 # ------------------------------------------------------------------ literals evaluated more than once (C14, C11, C07)
 def literal_fresh_cases(seed, n):
     """a list / dict literal inside a lambda body, a map callback or a statement that runs several times builds a NEW container
